@@ -105,11 +105,14 @@ func newSegment(cfg *types.Chain33Config, size int) segment {
 type arrival int
 
 const (
-	present arrival = iota // in the pool when the light block arrives
-	early                  // arrives before the timeout
-	late                   // arrives after the timeout
+	present    arrival = iota // in the pool when the light block arrives
+	early                     // arrives before the timeout, a loop pass follows before the timeout
+	late                      // arrives after the pass that found the timeout expired
 	never
+	lastMinute // arrives before the timeout, but the next loop pass only runs at / after the timeout
 )
+
+const nArrivals = 5
 
 func pushLine(e *p2pexec.Executor, sg segment) string {
 	grp := "-"
@@ -174,13 +177,16 @@ func runBlock(e *p2pexec.Executor, r *gen.Rand, sizes []int, arr []arrival, heig
 		line := fmt.Sprintf("pool push %s %d -", types.CalcTxShortHash(segs[collide].head.Hash()), e.Reg.IDOf(other))
 		s.lines = append(s.lines, [2]string{line, e.ExecPoolPushTx(line, other, segs[collide].head.Hash())})
 	}
-	allPresent, anyNeverOrLate := true, false
+	allPresent, anyNeverOrLate, anyLastMinute := true, false, false
 	for i, sg := range segs[1:] {
 		switch arr[i] {
 		case present:
 			s.push(sg)
 		case late, never:
 			anyNeverOrLate = true
+			allPresent = false
+		case lastMinute:
+			anyLastMinute = true
 			allPresent = false
 		default:
 			allPresent = false
@@ -204,6 +210,7 @@ func runBlock(e *p2pexec.Executor, r *gen.Rand, sizes []int, arr []arrival, heig
 	s.lines = append(s.lines, [2]string{line, res})
 	what := fmt.Sprintf("block sizes=%v arrivals=%v height=%d cur=%d", sizes, arr, height, cur)
 	posted := false
+	requested := false
 	check := func(when string) {
 		for _, p := range e.LastPosts {
 			posted = true
@@ -211,6 +218,11 @@ func runBlock(e *p2pexec.Executor, r *gen.Rand, sizes []int, arr []arrival, heig
 				if d := sameBlock(cfg, block, p.Block); d != "" {
 					s.pred("C34|buildPendBlock|rebuilt-block-differs", when+": "+d+"; "+what)
 				}
+			}
+		}
+		for _, q := range e.LastReqs {
+			if q == fmt.Sprintf("%d:%d", sender, height) {
+				requested = true
 			}
 		}
 	}
@@ -227,7 +239,7 @@ func runBlock(e *p2pexec.Executor, r *gen.Rand, sizes []int, arr []arrival, heig
 		s.op("tick")
 		check("tick before any arrival")
 	}
-	// arrivals before the timeout
+	// arrivals before the timeout, followed by a pass of the loop
 	s.op("now 100000")
 	for i, sg := range segs[1:] {
 		if arr[i] == early {
@@ -236,37 +248,46 @@ func runBlock(e *p2pexec.Executor, r *gen.Rand, sizes []int, arr []arrival, heig
 	}
 	res = s.op("tick")
 	check("tick after early arrivals")
-	if collide == 0 && !anyNeverOrLate && !posted {
+	if collide == 0 && !anyNeverOrLate && !anyLastMinute && !posted {
 		s.pred("C34|pendBlockLoop|not-rebuilt-after-arrival", res+"; "+what)
 	}
-	if collide == 0 && anyNeverOrLate && posted {
+	if collide == 0 && (anyNeverOrLate || anyLastMinute) && posted {
 		s.pred("C34|pendBlockLoop|posted-while-transactions-missing", res+"; "+what)
 	}
-	// the timeout passes
-	s.op("now 290000")
-	res = s.op("tick")
-	check("tick after the timeout")
-	if collide == 0 && anyNeverOrLate {
-		wantReq := height > cur
-		gotReq := false
-		for _, q := range e.LastReqs {
-			if q == fmt.Sprintf("%d:%d", sender, height) {
-				gotReq = true
-			}
-		}
-		switch {
-		case wantReq && !gotReq:
-			s.pred("C34|pendBlockLoop|no-full-block-request-after-timeout", res+"; "+what)
-		case !wantReq && gotReq:
-			s.pred("C34|pendBlockLoop|full-block-request-for-old-height", res+"; "+what)
-		}
-		if !strings.HasSuffix(res, "pend=0") {
-			s.pred("C34|buildPendList|timed-out-block-kept", res+"; "+what)
+	// arrivals still before the timeout (pending time 100 s of 250 s) — but the loop is late: its next pass
+	// only runs when the timeout has passed. The pool is complete at that pass: the block must be rebuilt, not given up.
+	for i, sg := range segs[1:] {
+		if arr[i] == lastMinute {
+			s.push(sg)
 		}
 	}
+	s.op("now 290000")
+	res = s.op("tick")
+	check("pass after the timeout")
+	if collide == 0 && !anyNeverOrLate {
+		if !posted {
+			s.pred("C34|buildPendList|complete-pool-not-rebuilt-at-late-pass", res+"; "+what)
+		}
+		if requested {
+			s.pred("C34|buildPendList|full-block-requested-although-pool-complete", res+"; "+what)
+		}
+	}
+	if collide == 0 && anyNeverOrLate {
+		wantReq := height > cur
+		switch {
+		case wantReq && !requested:
+			s.pred("C34|pendBlockLoop|no-full-block-request-after-timeout", res+"; "+what)
+		case !wantReq && requested:
+			s.pred("C34|pendBlockLoop|full-block-request-for-old-height", res+"; "+what)
+		}
+		if posted {
+			s.pred("C34|pendBlockLoop|posted-while-transactions-missing", res+"; "+what)
+		}
+	}
+	if collide == 0 && !strings.HasSuffix(res, "pend=0") {
+		s.pred("C34|buildPendList|block-kept-after-timeout-pass", res+"; "+what)
+	}
 	// late arrivals: the block is gone, nothing may be posted any more
-	n0 := len(e.LastPosts)
-	_ = n0
 	for i, sg := range segs[1:] {
 		if arr[i] == late {
 			s.push(sg)
@@ -320,14 +341,14 @@ func main() {
 	for _, sh := range shapes {
 		n := 1
 		for range sh {
-			n *= 4
+			n *= nArrivals
 		}
 		for code := 0; code < n; code++ {
 			arr := make([]arrival, len(sh))
 			c := code
 			for i := range arr {
-				arr[i] = arrival(c % 4)
-				c /= 4
+				arr[i] = arrival(c % nArrivals)
+				c /= nArrivals
 			}
 			cur := int64(10)
 			height := []int64{11, 10, 9}[r.Intn(3)]
@@ -344,7 +365,7 @@ func main() {
 			if r.Chance(2, 5) {
 				sizes[j] = 2 + r.Intn(5)
 			}
-			arr[j] = arrival(r.Pick(6, 2, 1, 1))
+			arr[j] = arrival(r.Pick(6, 2, 1, 1, 2))
 		}
 		collide := 0
 		if r.Chance(1, 10) {
